@@ -167,6 +167,26 @@ def wave_options(rng, k=None):
     return desc, None
 
 
+def wave_paths(rng, k=None):
+    """CPU and GPU code paths on overflowing waveforms (capacities 4 / per-line, busy inputs): identical option settings, so
+    memory and every captured column -- including the overflow indicator -- must be identical."""
+    if k is None:
+        kw = wk.stress_kw(rng)
+        kw['capmode'] = rng.choice(['4', '4', 'vec', 'skew'])
+        k = wk.gen_wave_case(rng, sims=rng.choice([2, 3, 5]), **kw)
+        k.tcap = rng.choice([None, 9, 25])
+    desc = dict(wk.describe(k), kind='wavepath')
+    for reuse in (False, True):
+        a, b = wk.run_case(k, cuda=False, reuse=reuse), wk.run_case(k, cuda=True, reuse=reuse)
+        va, vb = port_view(a), port_view(b)
+        if not np.array_equal(va, vb):
+            col, p, l = np.argwhere(va != vb)[0]
+            return desc, f'WaveSimCuda c_reuse={reuse}: s[{COLS[col]}] position {p} lane {l} = {vb[col, p, l]}, WaveSim gives {va[col, p, l]}'
+        if not np.array_equal(np.asarray(a.c), np.asarray(b.c)):
+            return desc, f'WaveSimCuda c_reuse={reuse}: waveform memory differs from WaveSim'
+    return desc, None
+
+
 def run(ck):
     if THEOREMS:
         ck.prove('C06', THEOREMS)
@@ -196,12 +216,23 @@ def run(ck):
             fails.append((desc, what))
         if i < 2:
             ck.sample({'kind': 'wave', 'nodes': len(desc.get('circuit', {}).get('nodes', [])), 'sims': desc.get('sims'), 'c_caps': desc.get('c_caps')})
+    novl = 0
+    for i in range(ck.scale(30, 600)):
+        try:
+            desc, what = wave_paths(rng)
+            novl += int(np.array(desc.get('c_caps')).min() <= 4)
+        except Exception:
+            desc, what = {'kind': 'wavepath'}, 'raises ' + traceback.format_exc()[-500:]
+        ck.count(1, 'wave-cpu-gpu-overflow-sets')
+        ck.nontrivial(('p', i))
+        if what:
+            fails.append((desc, what))
     keyof = lambda d: 'options:' + d.get('kind', '?') + (':' + d['class'] if 'class' in d else '')
     unknown = [f for f in fails if ck.known_entry(keyof(f[0])) is None]
     ck.obligation('option / lane / code-path invariance holds on every generated configuration set (listed known findings excepted)',
                   not unknown, 'correspondence', unknown[0][1] if unknown else '')
     ck.rule('per circuit: LogicSim m=2/4/8 x {c_reuse} x {strip_forks} x more lanes x lane permutation; WaveSim/WaveSimCuda x {c_reuse} x '
-            '{strip_forks with zero delay on fork inputs} x more lanes x lane permutation x c_prop(sims=j) x delay-dataset modes 0 and 1')
+            '{strip_forks with zero delay on fork inputs} x more lanes x lane permutation x c_prop(sims=j) x delay-dataset modes 0 and 1; WaveSim vs WaveSimCuda on overflowing waveforms (capacity 4 / per-line) incl. memory and overflow flags')
     ck.trust('no Coq theorem is specific to this property yet: it is decided here by differential execution of the implementation '
              'against itself over all option pairs; the models of SimOps/LogicSim/WaveSim (C01-C05) are option-parametric and tied by '
              'correspondence for every option setting')
@@ -215,6 +246,12 @@ def replay(rp):
     if inp.get('kind') == 'wave' and 'circuit' in inp:
         try:
             desc, what = wave_options(random.Random(0), wk.from_description(inp))
+        except Exception:
+            return True
+        return what is not None
+    if inp.get('kind') == 'wavepath' and 'circuit' in inp:
+        try:
+            desc, what = wave_paths(random.Random(0), wk.from_description(inp))
         except Exception:
             return True
         return what is not None
